@@ -482,8 +482,49 @@ def _compile(text):
         return None                      # anything else escapes and is reported as (ImplCrash ...)
 
 
+_LATE20 = {"done": False, "bad": None}
+
+
+def _late_class_probe():
+    """once per worker: a legacy class name that did not exist when an xpath naming it was rejected is accepted, and matches
+    instances of the class, once the class exists (seeded change C20-10: class-name resolution memoised)"""
+    if _LATE20["done"]:
+        return _LATE20["bad"]
+    _LATE20["done"] = True
+    import os
+    import sys
+    import types
+
+    name = f"VerifLateLegacy{os.getpid()}"
+    bad = None
+    if _compile("//" + name) is not None:
+        bad = "unknown-class-accepted"
+    m = types.ModuleType("verif_c20_late")
+    sys.modules[m.__name__] = m
+    with warnings.catch_warnings():
+        warnings.simplefilter("ignore")
+        exec(compile("from dataclasses import dataclass\nfrom pyoak.legacy.node import AwareASTNode\n"
+                     f"@dataclass\nclass {name}(AwareASTNode):\n    v: int = 0\n", m.__name__, "exec", dont_inherit=True), m.__dict__)
+        from pyoak.origin import NO_ORIGIN
+        inst = getattr(m, name)(origin=NO_ORIGIN)
+    X = _compile("//" + name)
+    if X is None:
+        bad = bad or "late-defined-class-still-rejected"
+    else:
+        inst.calculate_xpath()
+        if not X.match(inst):
+            bad = bad or "late-defined-class-does-not-match"
+    inst.detach()
+    _LATE20["bad"] = bad
+    return bad
+
+
 def impl(t, case):
     import random
+
+    lb = _late_class_probe()
+    if lb:
+        return Con("ProbeViolation", lb)
 
     u = luniverse_from_json(case["opts"]["universe"])
     with warnings.catch_warnings():
@@ -574,6 +615,19 @@ def _mutation_probe(start):
         for x in cands[:2]:
             x.replace_with(x.duplicate(as_detached_clone=True))
     except Exception:  # noqa: BLE001 - the probe does not apply (a legacy replace_with that refuses is C19's business)
+        return None
+    # ... and an element that is not the last one is removed from a sequence field; the paths written by calculate_xpath
+    # are then pairwise different again (seeded change C20-11: the sibling after the removed element kept its index)
+    try:
+        seqs = [x for x in start.dfs() if x is not start and x.parent is not None and x.parent_index is not None
+                and x.parent_index + 1 < len(getattr(x.parent, x.parent_field.name))]
+        if seqs and start.parent is None:
+            seqs[0].replace_with(None)
+            if start.calculate_xpath() is True:
+                xs = [n.xpath for n in _field_walk(start)]
+                if len(set(xs)) != len(xs):
+                    return "calculate_xpath after a removal: two nodes share a path"
+    except Exception:  # noqa: BLE001
         return None
     want = sorted(id(n) for n in _field_walk(start))
     for name, it in (("dfs", start.dfs()), ("dfs(bottom_up)", start.dfs(bottom_up=True)), ("bfs", start.bfs())):
